@@ -23,7 +23,39 @@ var serFormats = []string{"spdx23", "cdx10", "cdx11", "cdx12", "cdx13", "cdx14",
 func init() { trFormats["spdx3"] = formats.Format("text/spdx+json;version=3.0") }
 
 // shapeDoc builds a Document value of the given shape (Totality.tla).
+// sweepDoc: a serializable three-node document in which ONE enum-valued field holds the given number.
+func sweepDoc(s map[string]any) *sbom.Document {
+	d := shapeDoc(map[string]any{"meta": "full", "nl": "nodes", "roots": "one", "nodes": "plain", "edges": "tree", "dt": "none", "extra": "none"}, rand.New(rand.NewSource(1)))
+	v := int32(integer(s, "value"))
+	a := d.NodeList.Nodes[0]
+	b := d.NodeList.Nodes[1]
+	switch str(s, "sweep") {
+	case "edge_type":
+		d.NodeList.Edges = append(d.NodeList.Edges, &sbom.Edge{Type: sbom.Edge_Type(v), From: "b", To: []string{"c"}})
+	case "node_type":
+		b.Type = sbom.Node_NodeType(v)
+	case "purpose":
+		b.PrimaryPurpose = []sbom.Purpose{sbom.Purpose(v)}
+		a.PrimaryPurpose = []sbom.Purpose{sbom.Purpose(v)}
+	case "hash_algorithm":
+		b.Hashes = map[int32]string{v: "00ff"}
+	case "identifier":
+		b.Identifiers = map[int32]string{v: "pkg:npm/x@1"}
+	case "extref_type":
+		b.ExternalReferences = []*sbom.ExternalReference{{Type: sbom.ExternalReference_ExternalReferenceType(v), Url: "https://example.com"}}
+	case "extref_hash":
+		b.ExternalReferences = []*sbom.ExternalReference{{Type: sbom.ExternalReference_WEBSITE, Url: "https://example.com", Hashes: map[int32]string{v: "00ff"}}}
+	case "document_type":
+		t := sbom.DocumentType_SBOMType(v)
+		d.Metadata.DocumentTypes = []*sbom.DocumentType{{Type: &t}}
+	}
+	return d
+}
+
 func shapeDoc(s map[string]any, r *rand.Rand) *sbom.Document {
+	if _, ok := s["sweep"]; ok {
+		return sweepDoc(s)
+	}
 	d := &sbom.Document{}
 	switch str(s, "meta") {
 	case "empty":
@@ -235,7 +267,8 @@ func serRun(args []string) error {
 			return err
 		}
 		var file struct {
-			All []map[string]any `json:"all"`
+			Sweeps []map[string]any `json:"sweeps"`
+			All    []map[string]any `json:"all"`
 		}
 		if err := json.Unmarshal(raw, &file); err != nil {
 			return err
@@ -260,6 +293,13 @@ func serRun(args []string) error {
 			all = append(core, rest[:max(0, *sample-len(core))]...)
 		}
 		for i, s := range all {
+			if i%*nshards == *shard {
+				list = append(list, s)
+			}
+		}
+		// the enum sweep is small: always executed in full
+		sort.Slice(file.Sweeps, func(i, j int) bool { return canon(file.Sweeps[i]) < canon(file.Sweeps[j]) })
+		for i, s := range file.Sweeps {
 			if i%*nshards == *shard {
 				list = append(list, s)
 			}
